@@ -808,3 +808,146 @@ def runner_watchdog():
 
 
 MONITORS["C05"] = C05
+
+
+# ---------------------------------------------------------------------------------------------------
+# C13
+
+class C13(FaultMonitorMixin, BaseMonitor):
+    """Saving a system to JSON and loading it back loses nothing."""
+    prop = "C13"
+
+    def __init__(self, sim, k, cfg, res, opts):
+        super().__init__(sim, k, cfg, res, opts)
+        self.restarted = False
+
+    @staticmethod
+    def spec_generator(k, cfg, index):
+        if index % 2 == 0:
+            cfg["builders"] = True
+        return gen.gen_spec(k, cfg)
+
+    def next_op(self, i):
+        r = self.k.rng("op", i)
+        if i > 0 and r.random() < 0.3:
+            return {"op": "restart", "with_calc": r.random() < 0.5, "v9": r.random() < 0.3, "fault": "F3", "i": i}
+        if i == self.opts.get("n_ops_hint", 10) - 1 and not self.restarted:
+            return {"op": "restart", "with_calc": r.random() < 0.5, "v9": False, "fault": "F3", "i": i}
+        return opgen.gen_edit(r, self.sim.spec, self.cfg, i)
+
+    def step(self, i, op):
+        sim = self.sim
+        if op["op"] != "restart":
+            status, ret = self.execute(op)
+            if status == "raised":
+                self.res.count("ended_on_raise:" + type(ret).__name__)
+                self.stop = "op_raised"
+                return "raised"
+            if status == "hang":
+                if self.restarted:
+                    raise Violation("C13", "hang_after_reload", {ret.site}, f"edit on the reloaded system hangs in "
+                                    f"{ret.site}", i, op_kind(op))
+                self.stop = "hang_in_plain_edit"
+                return "hang"
+            if status == "ok" and self.restarted:
+                # "the loaded system is live: edits on it behave exactly as on a freshly built one"
+                self.compare_with_reference(i, op, "C13", "edit_on_reloaded_system_deviates")
+            return status
+        # ---- the restart fault
+        spec = sim.spec
+        inside = S.closure(spec)
+        old_world = sim.world
+        before_inputs = {}
+        for n in inside:
+            o = old_world.objs[n]
+            for a, v in spec["objs"][n]["attrs"].items():
+                if v is None or v[0] in ("ref", "refs", "str"):
+                    continue
+                val = getattr(o, a)
+                src = getattr(val, "source", None)
+                before_inputs[(n, a)] = (C.norm(val), val.label, (src.name, src.link) if src is not None else None)
+        ids_before = {n: old_world.objs[n].id for n in inside}
+        # attribution: the world being saved must itself agree with the reference
+        try:
+            ref = reference_world(sim)
+        except Exception as e:
+            self.res.count("left_envelope:" + type(e).__name__)
+            self.stop = "left_envelope"
+            return "skip"
+        saved_ok = not C.diff_snapshots(C.calc_snapshot(old_world, inside), C.calc_snapshot(ref, inside), self.cls_of)
+        if not saved_ok:
+            self.res.count("inconclusive_engine_defect")
+            self.stop = "inconclusive_engine_defect"
+            return "skip"
+        status, ret = self.execute(op)
+        tag = ("calc" if op.get("with_calc") else "inputs") + ("+v9" if op.get("v9") else "")
+        self.res.count("fault:restart_" + tag)
+        if status == "hang":
+            raise Violation("C13", "hang", {ret.site}, f"save/load does not return in {ret.site}", i, op_kind(op))
+        if status == "raised":
+            raise Violation("C13", "reload_raised", {f"{type(ret).__name__}:{tag}"},
+                            f"saving/loading ({tag}) raised {type(ret).__name__}: {str(ret)[:200]}", i, op_kind(op))
+        saved, new_world = ret
+        bad = []
+        missing = [n for n in inside if n not in new_world.objs]
+        if missing:
+            raise Violation("C13", "objects_lost", {self.cls_of(n) for n in missing},
+                            f"objects of the system missing after reload: {missing}", i, op_kind(op))
+        for n in inside:
+            o = new_world.objs[n]
+            if type(o).__name__ != spec["objs"][n]["cls"]:
+                bad.append(((n, "<class>"), f"{type(o).__name__} != {spec['objs'][n]['cls']}"))
+            if o.id != ids_before[n]:
+                bad.append(((n, "id"), f"{o.id} != {ids_before[n]}"))
+            for a, v in spec["objs"][n]["attrs"].items():
+                if v is None:
+                    continue
+                got = getattr(o, a, None)
+                if v[0] == "ref":
+                    if got is None or got.name != v[1]:
+                        bad.append(((n, a), f"link {getattr(got, 'name', None)} != {v[1]}"))
+                elif v[0] == "refs":
+                    if got is None or [x.name for x in got] != list(v[1]):
+                        bad.append(((n, a), f"list {[x.name for x in got] if got is not None else None} != {v[1]}"))
+                elif v[0] == "str":
+                    if got != v[1]:
+                        bad.append(((n, a), f"{got!r} != {v[1]!r}"))
+                else:
+                    want_norm, want_label, want_src = before_inputs[(n, a)]
+                    if got is None:
+                        bad.append(((n, a), "input missing"))
+                        continue
+                    ok, why = C.phys_equal(C.norm(got), want_norm, atol=0.0)
+                    if not ok:
+                        bad.append(((n, a), f"input value: {why}"))
+                    if got.label != want_label:
+                        bad.append(((n, a), f"label {got.label!r} != {want_label!r}"))
+                    src = getattr(got, "source", None)
+                    if ((src.name, src.link) if src is not None else None) != want_src:
+                        bad.append(((n, a), f"source {src} != {want_src}"))
+        if bad:
+            raise Violation("C13", "reloaded_inputs_or_links_differ", {f"{self.cls_of(k_[0])}.{k_[1]}" for k_, _ in bad},
+                            self.fmt(bad), i, op_kind(op))
+        # the reloaded world replaces the live one; objects that were not saved (unreachable) are forgotten
+        for n in list(spec["order"]):
+            if n not in new_world.objs:
+                del spec["objs"][n]
+                spec["order"].remove(n)
+        sim.world = new_world
+        self.restarted = True
+        diffs = C.diff_snapshots(C.calc_snapshot(new_world, S.closure(spec)), C.calc_snapshot(ref, S.closure(spec)),
+                                 self.cls_of)
+        if diffs:
+            raise Violation("C13", "reloaded_results_differ", self.where_of(diffs), self.fmt(diffs), i, op_kind(op))
+        from efootprint.api_utils.system_to_json import system_to_json
+        again = system_to_json(new_world.system, save_calculated_attributes=False)
+        first = system_to_json(old_world.system, save_calculated_attributes=False)
+        if again != first:
+            keys = [k_ for k_ in set(again) | set(first) if again.get(k_) != first.get(k_)]
+            raise Violation("C13", "re_export_differs", set(keys), f"re-exported JSON differs in sections {keys}", i,
+                            op_kind(op))
+        self.res.count("round_trips_checked")
+        return "ok"
+
+
+MONITORS["C13"] = C13
